@@ -145,7 +145,9 @@ def check_result(chk: Check, case, exp, res, feats, cid, rep):
                         bad("fitted != scale*matrix*clp", f"{label} at (time={mx}, spectral={gx}): fitted_data {fit}, dataset_scale({scale}) x matrix x clp = {fitcol[m]}")
                         return
             # relation targets exactly parameter x source where the relation applies
-            for r in case.get("relations", []):
+            # (with a link tolerance a point is judged at the coordinate it is aligned TO, which may lie on the other side of an interval
+            # bound; those cases are decided by the comparison with the specification above, which evaluates intervals on the aligned axis)
+            for r in case.get("relations", []) if not case.get("tol") else []:
                 if r["source"] in labs and r["target"] in labs:
                     for g_i, gx in enumerate(gaxis):
                         if _applies(r["ivs"], gx):
